@@ -11,6 +11,7 @@ import logging
 from dataclasses import dataclass
 from typing import TYPE_CHECKING
 
+from happysimulator.components.queue import QueueNotifyEvent
 from happysimulator.components.queue_policy import FIFOQueue, QueuePolicy
 from happysimulator.components.queued_resource import QueuedResource
 from happysimulator.core.event import Event
@@ -163,7 +164,15 @@ class ShiftedServer(QueuedResource):
 
         # Schedule the next shift change (self-perpetuating)
         next_event = self._schedule_next_shift()
-        return [next_event] if next_event else []
+        events: list[Event] = [next_event] if next_event else []
+
+        # The driver is only notified when the queue turns non-empty. Work that
+        # queued up while there was no spare capacity must be offered again now.
+        if new_capacity > old_capacity and self.depth > 0:
+            events.append(
+                QueueNotifyEvent(time=self.now, target=self.driver, queue_entity=self.queue)
+            )
+        return events
 
     def _schedule_next_shift(self) -> Event | None:
         """Schedule only the next transition event."""
